@@ -5,6 +5,7 @@ import (
 	"go/ast"
 	"go/token"
 	"go/types"
+	"sort"
 	"strings"
 )
 
@@ -50,6 +51,7 @@ func c02CommandRunSynchronous(c *Check, a *Anchors) {
 		return isFunc(obj, "mvdan.cc/sh/v3/interp", "Runner", "Run")
 	}
 	own, inLit := 0, 0
+	helpers := map[types.Object]*FuncBody{} // declared functions of the package, other than RunCommand, that run the interpreter in their own body (parseAndRun)
 	for _, fb := range c.P.BodiesIn(rc.Pkg.PkgPath) {
 		for _, call := range callsIn(fb, false) {
 			if !isRun(callee(fb.Info(), call)) {
@@ -60,15 +62,29 @@ func c02CommandRunSynchronous(c *Check, a *Anchors) {
 				c.Bad("command-run-synchronous", "interpreter-run@"+fnDisplay(fb), call.Pos(), "the shell interpreter is run from a function literal (goroutine / callback): the function that started the command can return while the command is still running")
 			} else if fb == rc {
 				own++
+			} else if fb.Obj != nil {
+				helpers[fb.Obj] = fb
 			}
 		}
 	}
-	n := resultFollows(c, a, rc, "interp-run", "command-run-synchronous", func(call *ast.CallExpr, obj types.Object) string {
-		if isRun(obj) {
+	label := func(call *ast.CallExpr, obj types.Object) string {
+		if isRun(obj) || (obj != nil && helpers[obj] != nil) {
 			return "interp-run"
 		}
 		return ""
-	})
+	}
+	n := 0
+	for _, h := range sortedBodies(helpers) {
+		// the helper is held to the same rule, and a call to it in RunCommand counts as the run
+		c.Fn(h)
+		n += resultFollows(c, a, h, "interp-run", "command-run-synchronous", label)
+	}
+	for _, call := range callsIn(rc, false) {
+		if obj := callee(rc.Info(), call); obj != nil && helpers[obj] != nil {
+			own++
+		}
+	}
+	n += resultFollows(c, a, rc, "interp-run", "command-run-synchronous", label)
 	c.Floor("command-run-synchronous", own+inLit, 1)
 	c.Floor("command-run-synchronous", n, 1)
 }
@@ -277,6 +293,21 @@ func resultFollows(c *Check, a *Anchors, fb *FuncBody, label, rule string, extra
 			} else if st.Has("nonnil:" + label) {
 				ok, how = true, "returns a non-nil error on the call's error edge"
 			} else {
+				// `x.finish(execute(ctx)); return x.err`: a setter method stored the call's result in the field returned here
+				inspectBody(fb.Body, func(n ast.Node) bool {
+					if es, isEs := n.(*ast.ExprStmt); isEs {
+						if call, isCall := ast.Unparen(es.X).(*ast.CallExpr); isCall {
+							if arg, recv, fld := setterStoresArg(c.P, info, call); arg != nil {
+								if inner, isInner := ast.Unparen(arg).(*ast.CallExpr); isInner && f.Labels[inner] == label {
+									if sel, isSel := ast.Unparen(res).(*ast.SelectorExpr); isSel && info.Uses[sel.Sel] == types.Object(fld) && exprStr(sel.X) == exprStr(recv) {
+										ok, how = true, "returns the field a setter method stored the call's result in"
+									}
+								}
+							}
+						}
+					}
+					return true
+				})
 				// an expression built from a variable assigned from the call
 				inspectBody(fb.Body, func(n ast.Node) bool {
 					if as, isAs := n.(*ast.AssignStmt); isAs && len(as.Rhs) == 1 {
@@ -786,4 +817,13 @@ func c02NoCommandForCallVars(c *Check, a *Anchors) {
 		}
 	}
 	c.Floor("call-vars-evaluated-by-callee", n, 2)
+}
+
+func sortedBodies(m map[types.Object]*FuncBody) []*FuncBody {
+	var out []*FuncBody
+	for _, fb := range m {
+		out = append(out, fb)
+	}
+	sort.Slice(out, func(i, j int) bool { return out[i].Body.Pos() < out[j].Body.Pos() })
+	return out
 }
